@@ -210,6 +210,8 @@ fn gen(ctx: &GenCtx, i: u64) -> Option<Run> {
             "null", "[]", "\"x\"", "0", "{}", "{\"exp\":1e308}", "{\"exp\":-1e308}", "{\"exp\":18446744073709551616}", "{\"nbf\":-9223372036854775808}",
             "{\"exp\":{\"exp\":{}}}", "{\"exp\":[[[[]]]]}", "{\"exp\":\"\\u0000\"}", "{\"exp\":\"\\ud800\"}", "{\"exp\":\"2024-01-01T00:00:00Z\",\"exp\":1}",
             deep_arr.as_str(), deep_obj.as_str(), long_str.as_str(), "{\"exp\" \"x\"}", "{", "\u{feff}{}",
+            // the empty message and other payloads too short to be JSON, authentic all the same
+            "", " ", "\n", "\t{}", "[", "n", "t", "\"", "-", "1e", "{\"a\"", "\u{0}", "}", "é",
         ] {
             let out = rb.msg();
             rb.push(Op::CoreIssue { proto, key, nonce_hex: if proto.is_local() { nonce_for(proto, &mut r) } else { String::new() }, payload: p.to_string(), footer: None, assertion: None, out, order: 0, rebuild: false });
